@@ -69,7 +69,10 @@ def gen():
         in_test = False
         for ln, line in enumerate(lines):
             if "#[cfg(test)]" in line:
-                in_test = True
+                # `#[cfg(test)] mod tests;` only declares a test module in another file; an inline `mod tests {` starts test code
+                nxt = lines[ln + 1] if ln + 1 < len(lines) else ""
+                if not nxt.strip().endswith(";"):
+                    in_test = True
             if in_test or SKIP_LINE.search(line):
                 continue
             code = line.split("//")[0]
@@ -148,14 +151,19 @@ def one_test(args):
     subprocess.run(["rsync", "-a", "--delete", "--exclude", "target", "--exclude", ".git", REPO + "/", work + "/"], check=True)
     p = os.path.join(work, m["file"])
     lines = open(p).read().split("\n")
-    lines[m["line"] - 1] = m["new"] if "new" in m else None
+    lines[m["line"] - 1] = m["new"]
     open(p, "w").write("\n".join(lines))
     os.utime(p, None)
-    r = subprocess.run("cargo test --workspace --lib --offline -q 2>&1 | tail -15", cwd=work, shell=True, text=True,
-                       env=dict(os.environ, CARGO_NET_OFFLINE="true", CARGO_TARGET_DIR="/var/tmp/muttest.%s/target%d" % (run, w)),
-                       stdout=subprocess.PIPE, timeout=1800)
-    ok = "test result: FAILED" not in r.stdout and "error" not in r.stdout.lower() and r.stdout.count("test result: ok") >= 2
-    return m["id"], ("survives" if ok else "killed"), r.stdout[-300:]
+    env = dict(os.environ, CARGO_NET_OFFLINE="true", CARGO_TARGET_DIR="/var/tmp/muttest.%s/target%d" % (run, w))
+    try:
+        # a mutant that makes a test loop for ever is killed by the tests just as well
+        r = subprocess.run("timeout -k 5 400 cargo test --workspace --lib --offline -q 2>&1 | tail -15", cwd=work, shell=True, text=True,
+                           env=env, stdout=subprocess.PIPE, timeout=900)
+        out = r.stdout
+    except subprocess.TimeoutExpired:
+        out = "TIMEOUT"
+    ok = "test result: FAILED" not in out and "error" not in out.lower() and "TIMEOUT" not in out and out.count("test result: ok") >= 2
+    return (m["file"], m["line"], m["op"], m["before"], m["after"]), ("survives" if ok else "killed"), out[-300:]
 
 
 def main():
@@ -206,23 +214,34 @@ def main():
         print(Counter(r["status"] for r in out))
     elif cmd == "tests":
         recs = json.load(open(pos[0]))
-        allm = {m["id"]: m for m in gen()}
-        silent = [allm[r["id"]] for r in recs if r["status"] == "silent" and r["id"] in allm and allm[r["id"]]["before"] == r["before"]]
+        allm = {(m["file"], m["line"], m["op"], m["before"], m["after"]): m for m in gen()}
+        todo = [allm[k] for k in ((r["file"], r["line"], r["op"], r["before"], r["after"]) for r in recs
+                                  if r["status"] == "silent" and not r.get("tests")) if k in allm]
+        print("silent mutants to test:", len(todo), flush=True)
         res = {}
-        # one persistent target dir per worker: chunk the list
-        chunks = [silent[i::jobs] for i in range(jobs)]
+        chunks = [todo[i::jobs] for i in range(jobs)]
+        import threading
+        lock = threading.Lock()
+
+        def save():
+            for r in recs:
+                k = (r["file"], r["line"], r["op"], r["before"], r["after"])
+                if k in res:
+                    r["tests"] = res[k]
+            json.dump(recs, open(pos[1], "w"), indent=1)
 
         def run_chunk(w):
-            return [one_test((m, run, w)) for m in chunks[w]]
+            for m in chunks[w]:
+                k, st, tail = one_test((m, run, w))
+                with lock:
+                    res[k] = st
+                    print("%s %s:%d %s [%s] -> [%s]" % (st, m["file"], m["line"], m["op"], m["before"][:50], m["after"][:50]), flush=True)
+                    if len(res) % 20 == 0:
+                        save()
         from concurrent.futures import ThreadPoolExecutor
         with ThreadPoolExecutor(jobs) as ex:
-            for lst in ex.map(run_chunk, range(jobs)):
-                for mid, st, tail in lst:
-                    res[mid] = st
-        for r in recs:
-            if r["id"] in res:
-                r["tests"] = res[r["id"]]
-        json.dump(recs, open(pos[1], "w"), indent=1)
+            list(ex.map(run_chunk, range(jobs)))
+        save()
         shutil.rmtree("/var/tmp/muttest.%s" % run, ignore_errors=True)
         from collections import Counter
         print(Counter(res.values()))
